@@ -1,4 +1,9 @@
 //! Child-process entry points (fresh process = fresh thread_rng, fresh statics).
-pub fn run(_args: &[String]) {
-    std::process::exit(2)
+pub fn run(args: &[String]) {
+    match args.first().map(|s| s.as_str()) {
+        Some("salts") => super::c08::child_salts(),
+        Some("keygen") => super::c15::child_keygen(&args[1..]),
+        _ => std::process::exit(2),
+    }
+    std::process::exit(0)
 }
